@@ -3,6 +3,7 @@ package interp
 import (
 	"fmt"
 	"go/types"
+	"sort"
 
 	"golang.org/x/tools/go/ssa"
 )
@@ -61,6 +62,8 @@ func (in *Interp) initAll() {
 	in.sharedWrites = nil
 	in.sharedReads = nil
 	in.atomicWritten = nil
+	in.phases = nil
+	in.phase = 0
 	in.syncUses = nil
 	in.nondetUses = nil
 	in.MapOrder = in.cfg.MapOrder
@@ -131,7 +134,57 @@ func (in *Interp) freezeVal(v Value) {
 	}
 }
 
+type phaseLog struct {
+	writes  map[interface{}]string // plain stores to shared cells / maps
+	awrites map[interface{}]string // atomic stores
+	reads   map[interface{}]string
+}
+
+func (in *Interp) plog() *phaseLog {
+	if in.phases == nil {
+		in.phases = map[int]*phaseLog{}
+	}
+	l := in.phases[in.phase]
+	if l == nil {
+		l = &phaseLog{writes: map[interface{}]string{}, awrites: map[interface{}]string{}, reads: map[interface{}]string{}}
+		in.phases[in.phase] = l
+	}
+	return l
+}
+
+// phaseConflicts: shared locations stored to (plainly) in one phase and accessed in another, or stored atomically in
+// one phase and read/written plainly in another. Two calls whose phases have no such location cannot race.
+func (in *Interp) phaseConflicts() []string {
+	var out []string
+	for a, la := range in.phases {
+		for b, lb := range in.phases {
+			if a == b || a == 0 || b == 0 {
+				continue
+			}
+			for loc, w := range la.writes {
+				if r, ok := lb.reads[loc]; ok {
+					out = append(out, "store at "+w+" (call "+fmt.Sprint(a)+") / read at "+r+" (call "+fmt.Sprint(b)+")")
+				} else if w2, ok := lb.writes[loc]; ok && a < b {
+					out = append(out, "store at "+w+" (call "+fmt.Sprint(a)+") / store at "+w2+" (call "+fmt.Sprint(b)+")")
+				} else if w2, ok := lb.awrites[loc]; ok {
+					out = append(out, "store at "+w+" (call "+fmt.Sprint(a)+") / atomic store at "+w2+" (call "+fmt.Sprint(b)+")")
+				}
+			}
+		}
+	}
+	sort.Strings(out)
+	return out
+}
+
 func (in *Interp) noteWrite(p *Value) {
+	if in.frozen != nil && in.frozen[p] && in.phase != 0 {
+		l := in.plog()
+		if in.inAtomic {
+			l.awrites[p] = in.posString()
+		} else {
+			l.writes[p] = in.posString()
+		}
+	}
 	if in.frozen != nil && in.frozen[p] {
 		if in.inAtomic {
 			if in.atomicWritten == nil {
@@ -145,6 +198,12 @@ func (in *Interp) noteWrite(p *Value) {
 }
 
 func (in *Interp) noteRead(p *Value) {
+	if in.frozen != nil && in.frozen[p] && in.phase != 0 && !in.inAtomic {
+		l := in.plog()
+		if _, ok := l.reads[p]; !ok {
+			l.reads[p] = in.posString()
+		}
+	}
 	if in.frozen != nil && in.frozen[p] {
 		if in.sharedReads == nil {
 			in.sharedReads = map[*Value]string{}
@@ -166,7 +225,19 @@ func (in *Interp) atomicConflicts() []string {
 	return out
 }
 
+func (in *Interp) noteMapRead(m *Map) {
+	if in.frozenMaps != nil && in.frozenMaps[m] && in.phase != 0 {
+		l := in.plog()
+		if _, ok := l.reads[m]; !ok {
+			l.reads[m] = in.posString()
+		}
+	}
+}
+
 func (in *Interp) noteMapWrite(m *Map) {
+	if in.frozenMaps != nil && in.frozenMaps[m] && in.phase != 0 {
+		in.plog().writes[m] = in.posString()
+	}
 	if in.frozenMaps != nil && in.frozenMaps[m] {
 		in.sharedWrites = append(in.sharedWrites, "map write at "+in.posString())
 	}
